@@ -75,7 +75,7 @@ theorem mergeRemoteState_keys {V : Type} [MergeVal V] (cfg : Cfg) (now : Int) (m
     (h : KeysNodup nd.store) : KeysNodup (mergeRemoteState cfg now nd ms).store := by
   induction ms generalizing nd with
   | nil => exact h
-  | cons m rest ih => exact ih (deliver_keys cfg now h m)
+  | cons m rest ih => exact ih (notifyMsg_keys cfg now h m)
 
 theorem cas_keys {V : Type} [MergeVal V] (cfg : Cfg) (now nowMs : Int) {nd : Node V} (h : KeysNodup nd.store) (key : String)
     (f : Option V → Option V) : KeysNodup (cas cfg now nowMs nd key f).1.store := by
